@@ -264,3 +264,246 @@ var ruleHoverPrefix = &Rule{
 		return obs
 	},
 }
+
+// ---------------------------------------------------------------------------------------------
+// WALK/paired-list-visit (C06, C11): a loop over one child list of a syntax node does not make the visit of its own
+// element depend on the length of a *sibling* list.
+//
+// `a, b, c = f()` has three targets and one value. The loop over the targets pairs target i with value i where there is
+// one; what it does with the target alone (the reference pass: findNameStr / findTableDefine) must happen for every
+// target. Four seeds of four rounds moved exactly those calls under `nExps >= i+1`.
+
+// listElem: v is (a type assertion of) the element of a slice field of an ast node read with a non-constant index;
+// returns the field address.
+var listElemIndex = map[*ssa.FieldAddr]ssa.Value{}
+
+func stripConst(v ssa.Value) ssa.Value {
+	for d := 0; d < 4; d++ {
+		if b, ok := v.(*ssa.BinOp); ok && (b.Op == token.ADD || b.Op == token.SUB) {
+			if _, isC := b.Y.(*ssa.Const); isC {
+				v = b.X
+				continue
+			}
+		}
+		break
+	}
+	return v
+}
+
+func listElem(v ssa.Value) *ssa.FieldAddr {
+	for d := 0; d < 4; d++ {
+		switch x := v.(type) {
+		case *ssa.Extract:
+			v = x.Tuple
+			continue
+		case *ssa.TypeAssert:
+			v = x.X
+			continue
+		case *ssa.ChangeInterface:
+			v = x.X
+			continue
+		case *ssa.MakeInterface:
+			v = x.X
+			continue
+		case *ssa.UnOp:
+			if x.Op != token.MUL {
+				return nil
+			}
+			ia, ok := x.X.(*ssa.IndexAddr)
+			if !ok {
+				return nil
+			}
+			if _, isConst := ia.Index.(*ssa.Const); isConst {
+				return nil
+			}
+			sl, ok := ia.X.(*ssa.UnOp)
+			if !ok {
+				return nil
+			}
+			fa, ok := sl.X.(*ssa.FieldAddr)
+			if !ok {
+				return nil
+			}
+			if pp, _ := namedPkgName(fa.X.Type()); pp != astPkg {
+				return nil
+			}
+			listElemIndex[fa] = ia.Index
+			return fa
+		}
+		return nil
+	}
+	return nil
+}
+
+// lenOfField: v is len(node.F) (possibly ± a constant); returns the field address.
+func lenOfField(v ssa.Value) *ssa.FieldAddr {
+	for d := 0; d < 3; d++ {
+		switch x := v.(type) {
+		case *ssa.BinOp:
+			if _, ok := x.Y.(*ssa.Const); ok && (x.Op == token.ADD || x.Op == token.SUB) {
+				v = x.X
+				continue
+			}
+			return nil
+		case *ssa.Call:
+			if b, ok := x.Call.Value.(*ssa.Builtin); ok && b.Name() == "len" && len(x.Call.Args) == 1 {
+				if ld, ok := x.Call.Args[0].(*ssa.UnOp); ok && ld.Op == token.MUL {
+					if fa, ok := ld.X.(*ssa.FieldAddr); ok {
+						if pp, _ := namedPkgName(fa.X.Type()); pp == astPkg {
+							return fa
+						}
+					}
+				}
+			}
+			return nil
+		}
+		return nil
+	}
+	return nil
+}
+
+var ruleWalkPaired = &Rule{
+	Name:    "WALK/paired-list-visit",
+	NeedSSA: true,
+	Text:    "in package analysis, inside a loop over a slice field A of a syntax node, a method of the walker (*Analysis — the functions that record occurrences, definitions and diagnostics; getters of other packages are pure) that is handed the current element of A (directly or type-asserted) and no element of a sibling list is not called exclusively behind one edge of a branch that compares against len(node.B) for a different slice field B of the same node type: what is done with a target alone is done for every target, also for those beyond the value list (`a, b = f()`); otherwise those targets are not reference occurrences and their names are never looked up",
+	Run: func(c *Ctx) []Ob {
+		var obs []Ob
+		n := 0
+		type edge struct {
+			g *ssa.BasicBlock
+			k int
+		}
+		for _, f := range c.ModFns() {
+			if f.Pkg == nil || f.Pkg.Pkg.Path() != analysisPkg || f.Blocks == nil {
+				continue
+			}
+			// branches on len(sibling list)
+			var lenIfs []*ssa.BasicBlock
+			lenField := map[*ssa.BasicBlock]*ssa.FieldAddr{}
+			lenOther := map[*ssa.BasicBlock]ssa.Value{}
+			for _, b := range f.Blocks {
+				if len(b.Instrs) == 0 {
+					continue
+				}
+				iff, ok := b.Instrs[len(b.Instrs)-1].(*ssa.If)
+				if !ok {
+					continue
+				}
+				bo, ok := iff.Cond.(*ssa.BinOp)
+				if !ok {
+					continue
+				}
+				switch bo.Op {
+				case token.LSS, token.LEQ, token.GTR, token.GEQ:
+				default:
+					continue
+				}
+				fa, other := lenOfField(bo.X), bo.Y
+				if fa == nil {
+					fa, other = lenOfField(bo.Y), bo.X
+				}
+				if fa != nil {
+					lenIfs = append(lenIfs, b)
+					lenField[b] = fa
+					lenOther[b] = stripConst(other)
+				}
+			}
+			if len(lenIfs) == 0 {
+				continue
+			}
+			// a loop header that runs to the sibling's length is a pairing loop, not a guard
+			{
+				hdr := loopsOf(f)
+				var keep []*ssa.BasicBlock
+				for _, G := range lenIfs {
+					if _, isH := hdr[G]; !isH {
+						keep = append(keep, G)
+					}
+				}
+				lenIfs = keep
+			}
+			// calls with the element of a list, per callee
+			type siteT struct {
+				call *ssa.Call
+				fa   *ssa.FieldAddr
+			}
+			sites := map[*ssa.Function][]siteT{}
+			var order []*ssa.Function
+			for _, b := range f.Blocks {
+				for _, ins := range b.Instrs {
+					call, ok := ins.(*ssa.Call)
+					if !ok {
+						continue
+					}
+					g := call.Call.StaticCallee()
+					if g == nil || !c.IsModFn(g) || g.Signature.Recv() == nil {
+						continue
+					}
+					if _, rn := namedPkgName(g.Signature.Recv().Type()); rn != "Analysis" {
+						continue // getters of other packages are pure: only the walker's own methods record anything
+					}
+					var own *ssa.FieldAddr
+					mixed := false
+					for _, a := range call.Call.Args {
+						if fa := listElem(a); fa != nil {
+							if own == nil {
+								own = fa
+							} else if fa.Field != own.Field {
+								mixed = true
+							}
+						}
+					}
+					if own == nil || mixed {
+						continue
+					}
+					if _, seen := sites[g]; !seen {
+						order = append(order, g)
+					}
+					sites[g] = append(sites[g], siteT{call, own})
+				}
+			}
+			for _, g := range order {
+				ss := sites[g]
+				var common *edge
+				all := true
+				for _, s := range ss {
+					var mine *edge
+					for _, G := range lenIfs {
+						lf := lenField[G]
+						if lf.Field == s.fa.Field || lf.X.Type() != s.fa.X.Type() {
+							continue // the loop's own bound, or another node type
+						}
+						if ix := listElemIndex[s.fa]; ix == nil || stripConst(ix) != lenOther[G] {
+							continue // not a comparison of this element's index
+						}
+						for k, S := range G.Succs {
+							if len(S.Preds) == 1 && S.Dominates(s.call.Block()) {
+								mine = &edge{G, k}
+							}
+						}
+					}
+					if mine == nil {
+						all = false
+						break
+					}
+					if common == nil {
+						common = mine
+					} else if *common != *mine {
+						all = false
+						break
+					}
+				}
+				n++
+				key := fmt.Sprintf("WALK/paired:%s:%s", fnKey(f), g.Name())
+				if all && common != nil {
+					obs = append(obs, Ob{Key: key, Site: c.Pos(ss[0].call.Pos()), Verdict: VIOLATION,
+						Note: fmt.Sprintf("%s is handed the current element of one child list only behind one edge of the comparison with the length of a sibling list at %s: elements beyond the sibling list are never handed to it", g.Name(), c.Pos(common.g.Instrs[len(common.g.Instrs)-1].Pos()))})
+				} else {
+					obs = append(obs, Ob{Key: key, Site: c.Pos(ss[0].call.Pos()), Verdict: OK})
+				}
+			}
+		}
+		obs = append(obs, floor("WALK/paired-list-visit", "callees handed the element of a child list in functions that compare against a sibling list's length", n, 3))
+		return obs
+	},
+}
